@@ -179,6 +179,13 @@ Definition tag_of (a : adapter) : list Z := match a with ATag k => [k] | _ => []
 Definition request_headers (d : dict) : dict :=
   fold_left (fun acc kv => dict_set (capitalize (fst kv)) (snd kv) acc) d [].
 
+(* the test in front of `headers['X-Request-ID'] = self._generate_request_id()`:
+   `'X-Request-ID' not in headers` (reqid_ci = false) or
+   `not any(name.lower() == 'x-request-id' for name in headers)` (reqid_ci = true; header names are ASCII here) *)
+Definition has_reqid (d : dict) : bool :=
+  if reqid_ci then existsb (fun kv => str_eqb (map low (fst kv)) reqid_test_key) d
+  else dict_mem reqid_test_key d.
+
 (* everything behind the adapter loop; [d] is the content of req_args.headers,
    returns the final content of that dict and the Request *)
 Definition assemble (addr : str) (send_ids : bool) (ads : list adapter) (path : str) (meth : option str)
@@ -189,7 +196,7 @@ Definition assemble (addr : str) (send_ids : bool) (ads : list adapter) (path : 
                end in
   let path2 := if negb (ends_with slash addr) && negb (starts_with slash path1) then slash :: path1 else path1 in
   let url := addr ++ path2 in
-  let d1 := if send_ids then (if dict_mem reqid_test_key d then d else dict_set reqid_set_key HGenId d) else d in
+  let d1 := if send_ids then (if has_reqid d then d else dict_set reqid_set_key HGenId d) else d in
   let m := match meth with
            | None => if body_truthy data then meth_with_data else meth_without_data
            | Some s => if nonempty s then upper s
